@@ -240,6 +240,7 @@ func parseNumber[D []byte | string](d D, neg, sepallowed bool) (Decimal, error) 
 	caneof := false
 	cansep := false
 	cansgn := false
+	needdig := false
 	eneg := false
 	sawdig := false
 	sawdot := false
@@ -253,6 +254,7 @@ func parseNumber[D []byte | string](d D, neg, sepallowed bool) (Decimal, error) 
 			caneof = true
 			cansep = true
 			cansgn = false
+			needdig = false
 			sawdig = true
 
 			sig64 = sig64*10 + uint64(c-'0')
@@ -261,7 +263,7 @@ func parseNumber[D []byte | string](d D, neg, sepallowed bool) (Decimal, error) 
 				nfrac++
 			}
 		case c == '.':
-			if sawdot {
+			if sawdot || needdig {
 				return Decimal{}, parseNumberSyntaxError{}
 			}
 
@@ -270,7 +272,7 @@ func parseNumber[D []byte | string](d D, neg, sepallowed bool) (Decimal, error) 
 			cansgn = false
 			sawdot = true
 		case c == 'E' || c == 'e':
-			if !sawdig {
+			if !sawdig || needdig {
 				return Decimal{}, parseNumberSyntaxError{}
 			}
 
@@ -286,6 +288,7 @@ func parseNumber[D []byte | string](d D, neg, sepallowed bool) (Decimal, error) 
 			caneof = false
 			cansep = false
 			cansgn = false
+			needdig = true
 		default:
 			return Decimal{}, parseNumberSyntaxError{}
 		}
@@ -301,6 +304,7 @@ func parseNumber[D []byte | string](d D, neg, sepallowed bool) (Decimal, error) 
 			caneof = true
 			cansep = true
 			cansgn = false
+			needdig = false
 			sawdig = true
 
 			if sawexp {
@@ -346,7 +350,7 @@ func parseNumber[D []byte | string](d D, neg, sepallowed bool) (Decimal, error) 
 				}
 			}
 		case c == '.':
-			if sawdot || sawexp {
+			if sawdot || sawexp || needdig {
 				return Decimal{}, parseNumberSyntaxError{}
 			}
 
@@ -355,7 +359,7 @@ func parseNumber[D []byte | string](d D, neg, sepallowed bool) (Decimal, error) 
 			cansgn = false
 			sawdot = true
 		case c == 'E' || c == 'e':
-			if !sawdig || sawexp {
+			if !sawdig || sawexp || needdig {
 				return Decimal{}, parseNumberSyntaxError{}
 			}
 
@@ -380,6 +384,7 @@ func parseNumber[D []byte | string](d D, neg, sepallowed bool) (Decimal, error) 
 			caneof = false
 			cansep = false
 			cansgn = false
+			needdig = true
 		case c == '+':
 			if !cansgn {
 				return Decimal{}, parseNumberSyntaxError{}
@@ -393,7 +398,7 @@ func parseNumber[D []byte | string](d D, neg, sepallowed bool) (Decimal, error) 
 		}
 	}
 
-	if !caneof {
+	if !caneof || !sawdig {
 		return Decimal{}, parseNumberSyntaxError{}
 	}
 
